@@ -10,7 +10,7 @@
 static uint64_t be64x(const uint8_t* p) { uint64_t v = 0; for (int i = 0; i < 8; i++) v = (v << 8) | p[i]; return v; }
 
 /* ------------------------------------------------------------------ CAN builders
- * CB <kind> <op> <id16> <fd> <len> <base> <place> <off> <arenahex> <payloadhex>
+ * CB <kind> <op> <id16> <fd> <len> <base> <place> <off> <arenahex> <payloadhex> [<srcoff>: payload source = arena + srcoff]
  *   kind: full | brief     op: create | copy | idfields | finalize | paylen            */
 typedef struct { const char* kind; const char* op; uint32_t id; int fd; uint16_t len; uint8_t* hdr; uint8_t* payload; uint64_t ret; } CanCtx;
 static void can_fn(void* p)
@@ -52,7 +52,8 @@ static int cmd_can(char** tok, int nt)
     uint8_t* arena = ext_place(place, off, arena_b, alen);
     c.hdr = arena + base;
     ext_dest_hint(c.hdr + (!strcmp(c.kind, "full") ? 16 : 8));
-    c.payload = ext_source(pay_b, plen);
+    if (nt >= 12 && atol(tok[11]) >= 0 && (size_t)atol(tok[11]) + plen <= alen) c.payload = arena + atol(tok[11]);   /* payload source inside the PDU buffer */
+    else c.payload = ext_source(pay_b, plen);
     ext_dest_hint(NULL);
     char status[64];
     ext_call(can_fn, &c, status, sizeof status, arena);
@@ -62,7 +63,7 @@ static int cmd_can(char** tok, int nt)
 
 
 /* ------------------------------------------------------------------ VSS codec (C07-C10)
- * VS <op> <dt> <mode> <n> <cap> <base> <place> <off> <arenahex> <arghex>
+ * VS <op> <dt> <mode> <n> <cap> <base> <place> <off> <arenahex> <arghex> [<srcoff>: putdata source at arena + srcoff]
  *   op: putpath putdata calcpath getpath getdata pad
  *   values are logical big-endian bytes; the harness turns them into host-typed C objects and back.
  * answer: R status ret rc out arena canary len=<n> data=<hex> dirty=<0|1>                       */
@@ -123,7 +124,12 @@ static int cmd_vss(char** tok, int nt)
         else { c.path.vss_interop_path.path_length = (uint16_t)arglen; c.path.vss_interop_path.path = (char*)ext_source(arg_b, arglen); }
     } else if (!strcmp(c.op, "putdata")) {
         to_host(arg_b, host_b, arglen, es);
-        if (is_var(c.dt) || c.dt > 11) { c.arr.data_length = (uint16_t)arglen; c.arr.data = ext_source_typed(host_b, arglen, (size_t)es); c.data.data_string = (VssDataString_t*)&c.arr; }
+        if (is_var(c.dt) || c.dt > 11) {
+            c.arr.data_length = (uint16_t)arglen;
+            if (nt >= 12 && atol(tok[11]) >= 0 && (size_t)atol(tok[11]) + arglen <= alen) {      /* source in place: inside the arena */
+                memcpy(arena + atol(tok[11]), host_b, arglen); c.arr.data = arena + atol(tok[11]);
+            } else c.arr.data = ext_source_typed(host_b, arglen, (size_t)es);
+            c.data.data_string = (VssDataString_t*)&c.arr; }
         else memcpy(&c.data, host_b, es);          /* scalar members all start at offset 0 of the union */
     } else if (!strcmp(c.op, "getpath")) {
         if (c.mode != 1) { dest = ext_dest(0, cap, 0xCD); c.path.vss_interop_path.path = (char*)dest; c.path.vss_interop_path.path_length = 0xBEEF; }
@@ -201,17 +207,20 @@ static int cmd_sa(char** tok, int nt)
         long caps[512]; int nc = 0; char* s = tok[5];
         while (*s && nc < 512) { caps[nc++] = atol(s); char* e = strchr(s, ','); if (!e) break; s = e + 1; }
         uint8_t* dests[512];
+        static VssDataString_t shared_skip;              /* pattern char '2': one descriptor named by several entries of the pointer array */
+        shared_skip.data_length = 0xBEEF; shared_skip.data = NULL;
+#define WD2(i) (wdl && wds[(size_t)(i) < wdl ? (size_t)(i) : wdl - 1] == '2')
         for (int i = 0; i < c.n && i < 512; i++) {
             long cap = i < nc ? caps[i] : 0;
             dests[i] = NULL;
             if (WD(i)) dests[i] = (i < 8) ? ext_dest(1 + i, cap, 0xCD) : dummy;
-            c.strs[i].data_length = 0xBEEF; c.strs[i].data = (char*)dests[i]; c.ptrs[i] = &c.strs[i];
+            c.strs[i].data_length = 0xBEEF; c.strs[i].data = (char*)dests[i]; c.ptrs[i] = WD2(i) ? &shared_skip : &c.strs[i];
         }
         ext_call(sa_fn, &c, status, sizeof status, c.arr.data);
         printf("R %s res=", status);
         for (int i = 0; i < c.n && i < 512; i++) {
             long cap = i < nc ? caps[i] : 0;
-            unsigned dl = c.strs[i].data_length;
+            unsigned dl = c.ptrs[i]->data_length;
             printf("%s%u:", i ? "," : "", dl);
             if (WD(i) && i < 8 && dl != 0xBEEF) puthex(dests[i], dl > (unsigned)cap ? (size_t)cap : dl); else putchar('-');
             if (WD(i) && i < 8 && ext_dest_dirty(1 + i, cap, 0xCD)) printf("!dirty");
